@@ -3,6 +3,7 @@
     init <server> <srt> <advertiseStrict> <serverSigAlgs>
     recv <ptype> <names: hex,hex,…|-> <kex: malformed|incompatible|dh|ecdh|gex|gexold|-> <engineOk> <needRekey> <handlerSends|->
     rekey
+    seqin <n>            (preset the inbound sequence number, as after n earlier packets)
   every reply: <active> <err> <done> <agreedStrict> <seqIn> <seqOut> <expected> <sent by this step: type:seqno:arg,…>
 -/
 import PV.Model.RunLoopIO
@@ -36,6 +37,10 @@ def stepLine (s : St) (line : String) : St × String :=
       let s' := step Generated.C12.tables s (.recv pt [] x)
       (s', summary s s')
     | _, _, _, _, _, _ => (s, "bad-op")
+  | ["seqin", n] =>
+    match n.toNat? with
+    | some n => let s' := { s with seqIn := n }; (s', summary s s')
+    | none => (s, "bad-op")
   | ["rekey"] => let s' := step Generated.C12.tables s .rekey; (s', summary s s')
   | _ => (s, "bad-op")
 
